@@ -71,6 +71,26 @@ FieldHolds(g, c, p, lp, lo) ==
 
 FieldViolated(c, p, lp, lo) == {g \in FieldGuards : ~FieldHolds(g, c, p, lp, lo)}
 
+\* ---- the properties themselves, on the state the observations lead to -------------
+\* Tunnel.tla states the properties on the last step and the history summary (oks, tokOk, nd) and TLC shows that the
+\* step guards imply them for every history.  Here they are evaluated directly on every state of the recorded
+\* execution: a step that passed because an EARLIER step was answered wrongly (a tunnel request accepted without an
+\* acceptable cookie, then a connection) is reported under the property it breaks.
+HistNames == {"G_C01_HistAtMostOneDial", "G_C01_HistDialAfterAuthorisation", "G_C01_HistRelayAfterChannel", "G_C01_HistSuccessOnlyInOrder",
+              "G_C01_HistOksInOrder", "G_C01_HistErrorOrCloseEnds", "G_C02_HistCookieNeeded", "G_C03_HistOnlyAllowedDialled", "G_C17_HistNoMechanismNoEntry"}
+HistHolds(g) ==
+  CASE g = "G_C01_HistAtMostOneDial" -> H_C01_AtMostOneDial
+    [] g = "G_C01_HistDialAfterAuthorisation" -> H_C01_DialAfterAuthorisation
+    [] g = "G_C01_HistRelayAfterChannel" -> H_C01_RelayAfterChannel
+    [] g = "G_C01_HistSuccessOnlyInOrder" -> H_C01_SuccessOnlyInOrder
+    [] g = "G_C01_HistOksInOrder" -> H_C01_OksInOrder
+    [] g = "G_C01_HistErrorOrCloseEnds" -> H_C01_ErrorOrCloseEnds
+    [] g = "G_C02_HistCookieNeeded" -> H_C02_CookieNeeded
+    [] g = "G_C03_HistOnlyAllowedDialled" -> H_C03_OnlyAllowedDialled
+    [] g = "G_C17_HistNoMechanismNoEntry" -> H_C17_NoMechanismNoEntry
+\* (the state is the one after line l - 1)
+HistBad == {<<l - 1, g, last.ph, last.p.k, last.p.cls>> : g \in {x \in HistNames : ~HistHolds(x)}}
+
 \* ---- the trace actions ---------------------------------------------------------
 TInit == /\ l = 1 /\ viol = {} /\ cover = {}
          /\ cfg = [tokenAuth |-> FALSE, smartCard |-> FALSE]
@@ -79,7 +99,7 @@ TInit == /\ l = 1 /\ viol = {} /\ cover = {}
 TReset == /\ l <= Len(TraceLog) /\ Line.ev = "reset"
           /\ cfg' = Line.cfg
           /\ phase' = "init" /\ nd' = 0 /\ oks' = <<>> /\ tokOk' = FALSE /\ last' = NoLast
-          /\ l' = l + 1 /\ UNCHANGED <<viol, cover>>
+          /\ l' = l + 1 /\ viol' = viol \cup HistBad /\ UNCHANGED cover
 
 TPkt == /\ l <= Len(TraceLog) /\ Line.ev = "pkt"
         /\ LET o  == AbsOut(Line.o)
@@ -91,13 +111,13 @@ TPkt == /\ l <= Len(TraceLog) /\ Line.ev = "pkt"
                \* whether the requested address accepts connections is a fact of the environment: taken from the attempt itself
                n  == IF nd > 1 THEN 1 ELSE nd
                bad == Violated(cfg, phase, n, p, o) \cup FieldViolated(cfg, p, Line.p, Line.o)
-           IN /\ viol' = viol \cup {<<l, g, phase, p.k, p.cls>> : g \in bad}
+           IN /\ viol' = viol \cup {<<l, g, phase, p.k, p.cls>> : g \in bad} \cup HistBad
               /\ cover' = cover \cup {<<p.k, phase, o.resp>>}
               /\ phase' = NextPhase(phase, p, o)
               /\ nd' = nd + Len(Line.o.dials)
               /\ oks' = IF o.resp = "ok" THEN Append(oks, p.k) ELSE oks
               /\ tokOk' = IF o.resp = "ok" /\ p.k = "create" THEN p.cookieGood ELSE tokOk
-              /\ last' = NoLast
+              /\ last' = [p |-> p, o |-> o, ph |-> phase, nd |-> nd, oks |-> oks, tokOk |-> tokOk]
         /\ l' = l + 1 /\ UNCHANGED cfg
 
 \* isolation observation of a multi-tunnel run: after a payload moved on this tunnel, own = exactly this tunnel's
@@ -113,6 +133,6 @@ TSpec == TInit /\ [][TNext]_tvars
 
 \* printed exactly once, when the whole log has been consumed
 AtEnd == l = Len(TraceLog) + 1 =>
-           PrintT(<<"VERIF_RESULT", ToJson([viol |-> viol, cover |-> cover, lines |-> Len(TraceLog)])>>)
+           PrintT(<<"VERIF_RESULT", ToJson([viol |-> viol \cup HistBad, cover |-> cover, lines |-> Len(TraceLog)])>>)
 TraceAccepted == TLCGet("stats").diameter = Len(TraceLog) + 1
 =============================================================================
